@@ -420,99 +420,7 @@ func c02(r *core.Run) {
 
 func c03(r *core.Run) {
 	w := r.W
-	// T1 pool typestate at every Get site
-	nSites := 0
-	for _, fn := range w.Funcs {
-		gets := core.Calls(fn, "pkg/bmtpool.Get", "(*pkg/bmt.Pool).Get")
-		if len(gets) == 0 || fn.Pkg.Pkg.Path() == core.P("pkg/bmtpool") {
-			continue
-		}
-		r.Saw(core.FuncName(fn))
-		r.Eval(core.EdgeCount(fn))
-		for _, g := range gets {
-			nSites++
-			h := ssa.Value(g.(*ssa.Call))
-			isPut := func(in ssa.Instruction) bool {
-				c := core.Common(in)
-				if c == nil || !core.IsCallTo(in, "pkg/bmtpool.Put", "(*pkg/bmt.Pool).Put") {
-					return false
-				}
-				return core.Forward(c.Args[len(c.Args)-1]) == h
-			}
-			var deferredPut ssa.Instruction
-			var puts []ssa.Instruction
-			core.EachInstr(fn, func(_ *ssa.BasicBlock, _ int, in ssa.Instruction) {
-				if !isPut(in) {
-					return
-				}
-				if _, isDefer := in.(*ssa.Defer); isDefer {
-					deferredPut = in
-				} else {
-					puts = append(puts, in)
-				}
-			})
-			ok, why := true, ""
-			if deferredPut != nil {
-				if len(puts) > 0 {
-					ok, why = false, "the hasher is released both by defer and explicitly (double Put)"
-				}
-				if !core.Precedes(g, deferredPut) || g.Block() != deferredPut.Block() && !g.Block().Dominates(deferredPut.Block()) {
-					ok, why = false, "the deferred Put is not registered right after Get on every path"
-				}
-				// every path from Get to exit passes the defer registration
-				if ok && !mustPassToExit(g, func(in ssa.Instruction) bool { return in == deferredPut }) {
-					ok, why = false, "a path from Get leaves the function before the deferred Put is registered"
-				}
-			} else {
-				if !mustPassToExit(g, isPut) {
-					ok, why = false, "a path from Get reaches the function's exit without Put: the hasher leaks from the pool"
-				}
-				for _, p := range puts {
-					// no second Put and no use after Put
-					after := false
-					reachAfter := core.ReachBlocks(p.Block().Succs, nil)
-					chk := func(in ssa.Instruction) {
-						c := core.Common(in)
-						if c == nil {
-							return
-						}
-						uses := false
-						for _, a := range core.CallArgs(c) {
-							if core.Forward(a) == h {
-								uses = true
-							}
-						}
-						if uses {
-							if isPut(in) {
-								ok, why = false, "the hasher can be released twice on one path"
-							} else {
-								ok, why = false, "a hasher method is called after the hasher was returned to the pool (another goroutine may already own it)"
-							}
-						}
-					}
-					for _, in := range p.Block().Instrs {
-						if after {
-							chk(in)
-						}
-						if in == p {
-							after = true
-						}
-					}
-					for b := range reachAfter {
-						if b == p.Block() {
-							continue // loop back into the same block: conservative skip (no loops at the known sites)
-						}
-						for _, in := range b.Instrs {
-							chk(in)
-						}
-					}
-				}
-			}
-			r.Check("C03.T1", lsKey("C03.T1", fn, "Get…Put typestate"), g.Pos(), ok,
-				"the pooled hasher is released exactly once on every path and never used afterwards", why)
-		}
-	}
-	r.Floor("C03.T1", "bmtpool.Get sites in the program", nSites, 2)
+	poolTypestate(r, "C03.T1", "", 2)
 
 	// W1 node.state atomic only
 	const nodeT = "pkg/bmt.node"
@@ -665,4 +573,105 @@ func c03(r *core.Run) {
 	})
 	r.Floor("C03.F1", "result sends in writeNode", nSend, 1)
 	c03More(r)
+}
+
+// poolTypestate (C03.T1; run as C04.T1 for pkg/cac): every pooled hasher obtained from
+// bmtpool.Get is released exactly once on every path and no hasher method is called after
+// the release — cac.New / NewWithDataSpan / Valid compute the address with such a hasher,
+// and a tree handed back before Hash() is shared with the next user's hash.
+func poolTypestate(r *core.Run, rule, only string, floor int) {
+	w := r.W
+	// T1 pool typestate at every Get site
+	nSites := 0
+	for _, fn := range w.Funcs {
+		gets := core.Calls(fn, "pkg/bmtpool.Get", "(*pkg/bmt.Pool).Get")
+		if len(gets) == 0 || fn.Pkg.Pkg.Path() == core.P("pkg/bmtpool") || (only != "" && fn.Pkg.Pkg.Path() != core.P(only)) {
+			continue
+		}
+		r.Saw(core.FuncName(fn))
+		r.Eval(core.EdgeCount(fn))
+		for _, g := range gets {
+			nSites++
+			h := ssa.Value(g.(*ssa.Call))
+			isPut := func(in ssa.Instruction) bool {
+				c := core.Common(in)
+				if c == nil || !core.IsCallTo(in, "pkg/bmtpool.Put", "(*pkg/bmt.Pool).Put") {
+					return false
+				}
+				return core.Forward(c.Args[len(c.Args)-1]) == h
+			}
+			var deferredPut ssa.Instruction
+			var puts []ssa.Instruction
+			core.EachInstr(fn, func(_ *ssa.BasicBlock, _ int, in ssa.Instruction) {
+				if !isPut(in) {
+					return
+				}
+				if _, isDefer := in.(*ssa.Defer); isDefer {
+					deferredPut = in
+				} else {
+					puts = append(puts, in)
+				}
+			})
+			ok, why := true, ""
+			if deferredPut != nil {
+				if len(puts) > 0 {
+					ok, why = false, "the hasher is released both by defer and explicitly (double Put)"
+				}
+				if !core.Precedes(g, deferredPut) || g.Block() != deferredPut.Block() && !g.Block().Dominates(deferredPut.Block()) {
+					ok, why = false, "the deferred Put is not registered right after Get on every path"
+				}
+				// every path from Get to exit passes the defer registration
+				if ok && !mustPassToExit(g, func(in ssa.Instruction) bool { return in == deferredPut }) {
+					ok, why = false, "a path from Get leaves the function before the deferred Put is registered"
+				}
+			} else {
+				if !mustPassToExit(g, isPut) {
+					ok, why = false, "a path from Get reaches the function's exit without Put: the hasher leaks from the pool"
+				}
+				for _, p := range puts {
+					// no second Put and no use after Put
+					after := false
+					reachAfter := core.ReachBlocks(p.Block().Succs, nil)
+					chk := func(in ssa.Instruction) {
+						c := core.Common(in)
+						if c == nil {
+							return
+						}
+						uses := false
+						for _, a := range core.CallArgs(c) {
+							if core.Forward(a) == h {
+								uses = true
+							}
+						}
+						if uses {
+							if isPut(in) {
+								ok, why = false, "the hasher can be released twice on one path"
+							} else {
+								ok, why = false, "a hasher method is called after the hasher was returned to the pool (another goroutine may already own it)"
+							}
+						}
+					}
+					for _, in := range p.Block().Instrs {
+						if after {
+							chk(in)
+						}
+						if in == p {
+							after = true
+						}
+					}
+					for b := range reachAfter {
+						if b == p.Block() {
+							continue // loop back into the same block: conservative skip (no loops at the known sites)
+						}
+						for _, in := range b.Instrs {
+							chk(in)
+						}
+					}
+				}
+			}
+			r.Check(rule, lsKey(rule, fn, "Get…Put typestate"), g.Pos(), ok,
+				"the pooled hasher is released exactly once on every path and never used afterwards", why)
+		}
+	}
+	r.Floor(rule, "bmtpool.Get sites in the program", nSites, floor)
 }
